@@ -128,9 +128,10 @@ std::vector<ShamirShare> Shamir::split(const std::array<std::uint8_t, 32>& secre
     std::vector<ShamirShare> shares;
     shares.reserve(share_count);
 
-    for (std::uint8_t share_index = 1; share_index <= share_count; ++share_index) {
+    // The counter is wider than share_count so that share_count == 255 terminates.
+    for (std::uint16_t share_index = 1; share_index <= share_count; ++share_index) {
         ShamirShare share{};
-        share.index = share_index;
+        share.index = static_cast<std::uint8_t>(share_index);
         shares.push_back(share);
     }
 
@@ -159,6 +160,13 @@ std::array<std::uint8_t, 32> Shamir::combine(const std::vector<ShamirShare>& sha
     static const auto log_table = build_log_table(exp_table);
 
     std::vector<ShamirShare> subset(shares.begin(), shares.begin() + threshold);
+    std::array<bool, 256> seen{};
+    for (const auto& share : subset) {
+        if (share.index == 0 || seen[share.index]) {
+            throw std::invalid_argument("share indices must be distinct and non-zero");
+        }
+        seen[share.index] = true;
+    }
     return interpolate(subset, exp_table, log_table);
 }
 
